@@ -569,15 +569,21 @@ class IH5Group(IH5InnerNode):
         if nodes[-1]._gpath == path:
             raise ValueError("Cannot create group, it already exists!")
 
-        # remove "deleted" marker, if set at current path in current patch container
-        if path in self._files[-1] and _node_is_del_mark(self._files[-1][path]):
-            del self._files[-1][path]
-        # create group (or fail if something else exists there already)
-        self._files[-1].create_group(path)
-        # if this is a patch: mark as non-virtual, i.e. "overwrite" with empty group
-        # because the intent here is to "create", not update something.
-        if len(self._files) > 1:
-            self._files[-1][path].attrs[SUBST_KEY] = h5py.Empty(None)
+        # the first missing path segment could be marked as deleted (in this or an
+        # earlier patch), so it must be created as "overwrite" group just like the
+        # requested group itself (missing groups in between are new in any case)
+        segs = path.strip("/").split("/")
+        first, path = "/" + "/".join(segs[: len(nodes)]), "/" + "/".join(segs)
+        for p in [first, path] if first != path else [path]:
+            # remove "deleted" marker, if set at that path in current patch container
+            if p in self._files[-1] and _node_is_del_mark(self._files[-1][p]):
+                del self._files[-1][p]
+            # create group (or fail if something else exists there already)
+            self._files[-1].create_group(p)
+            # if this is a patch: mark as non-virtual, i.e. "overwrite" with empty group
+            # because the intent here is to "create", not update something.
+            if len(self._files) > 1:
+                self._files[-1][p].attrs[SUBST_KEY] = h5py.Empty(None)
 
         return IH5Group(self._record, path, self._last_idx)
 
